@@ -470,6 +470,26 @@ func c13L3(r *Run, rep *core.Report) {
 				sites := core.CallSitesOf(r.P.Funcs, g)
 				for _, site := range sites {
 					fromResize := false
+					// called through a bound-method forwarder ('finish := m.endResize; defer finish()'): judged by where the
+					// method value is created
+					if p := site.Parent(); p != nil && (strings.Contains(p.Synthetic, "bound method wrapper") || strings.Contains(p.Synthetic, "thunk")) {
+						created, inResize := 0, 0
+						for _, h := range r.P.Funcs {
+							core.Instrs(h, func(in2 ssa.Instruction) {
+								if mc, isMC := in2.(*ssa.MakeClosure); isMC && mc.Fn == ssa.Value(p) {
+									created++
+									for _, m2 := range r.M.Maps {
+										if h == m2.Resize && m2.StateOwner == mm.StateOwner {
+											inResize++
+										}
+									}
+								}
+							})
+						}
+						if created > 0 && created == inResize {
+							fromResize = true
+						}
+					}
 					for _, m2 := range r.M.Maps {
 						// bookkeeping shared by both map types: the other map's resize owner calls the same helper
 						if site.Parent() == m2.Resize && m2.StateOwner == mm.StateOwner {
@@ -480,7 +500,26 @@ func c13L3(r *Run, rep *core.Report) {
 						only = false
 					}
 				}
-				if only && len(sites) > 0 {
+				// the helper taken as a method value ('finish := m.endResize; defer finish()'): judged by where the value is made
+				nMV, nMVResize := 0, 0
+				for _, h := range r.P.Funcs {
+					core.Instrs(h, func(in2 ssa.Instruction) {
+						mc, isMC := in2.(*ssa.MakeClosure)
+						if !isMC {
+							return
+						}
+						if wf, _ := mc.Fn.(*ssa.Function); wf == nil || boundMethod(wf) != g {
+							return
+						}
+						nMV++
+						for _, m2 := range r.M.Maps {
+							if h == m2.Resize && m2.StateOwner == mm.StateOwner {
+								nMVResize++
+							}
+						}
+					})
+				}
+				if only && nMV == nMVResize && len(sites)+nMV > 0 {
 					continue
 				}
 			}
